@@ -8,7 +8,10 @@
  * The output state carries a version (bumped by every write); every test records the version it judged.  Bounded: numIters_ <= 3. */
 #include <stdbool.h>
 #include <stddef.h>
-#define VMAX 8
+#ifndef NI_MAX
+#define NI_MAX 3
+#endif
+#define VMAX (NI_MAX + 5)
 #define REACH(msg) __CPROVER_assert(0, "REACH " msg)
 bool nondet_bool(void); double nondet_double(void);
 unsigned numIters_; unsigned ver; double COSTV[VMAX]; bool INPHS[VMAX], INB[VMAX]; unsigned draws;
@@ -41,7 +44,7 @@ bool pl_helper(double maxCost, unsigned int *iters)
 /*@BODY pl_helper@*/
 bool pl_minmax(double minCost, double maxCost)
 /*@BODY pl_minmax@*/
-static void init(void) { __CPROVER_assume(numIters_ <= 3); ver = 0; draws = 0; cost_tested_ver = phs_tested_ver = bounds_tested_ver = lower_tested_ver = 99; base_sample_last = false; for (unsigned v = 0; v < VMAX; v++) __CPROVER_assume(COSTV[v] == COSTV[v]); }
+static void init(void) { __CPROVER_assume(numIters_ <= NI_MAX); ver = 0; draws = 0; cost_tested_ver = phs_tested_ver = bounds_tested_ver = lower_tested_ver = 99; base_sample_last = false; for (unsigned v = 0; v < VMAX; v++) __CPROVER_assume(COSTV[v] == COSTV[v]); }
 void h_rej_helper(void)
 {
     init(); double maxc; __CPROVER_assume(maxc == maxc); unsigned it; __CPROVER_assume(it <= numIters_); unsigned it0 = it;
